@@ -1,0 +1,152 @@
+//go:build verif
+
+package node
+
+// Verification exports (build tag "verif") for the cron block: the spec
+// compiler, the mask matcher and a cron object whose timer is stopped so that
+// the harness decides when the (real) tick body runs.
+
+import (
+	"time"
+
+	"ergo.services/ergo/gen"
+)
+
+// VerifCronMasks is the compiled form of a spec (cronSpecMask) as plain integers.
+type VerifCronMasks struct {
+	MinHourMonth []uint64
+	Day          []uint64
+	WeekDay      []uint64
+}
+
+// VerifCronSpec is a compiled spec.
+type VerifCronSpec struct {
+	mask cronSpecMask
+}
+
+// VerifCronParseSpec calls cronParseSpec.
+func VerifCronParseSpec(spec string) (VerifCronSpec, error) {
+	m, err := cronParseSpec(gen.CronJob{Spec: spec})
+	return VerifCronSpec{mask: m}, err
+}
+
+// Masks returns the three mask lists.
+func (s VerifCronSpec) Masks() VerifCronMasks {
+	var r VerifCronMasks
+	for _, m := range s.mask.MinHourMonth {
+		r.MinHourMonth = append(r.MinHourMonth, uint64(m))
+	}
+	for _, m := range s.mask.Day {
+		r.Day = append(r.Day, uint64(m))
+	}
+	for _, m := range s.mask.WeekDay {
+		r.WeekDay = append(r.WeekDay, uint64(m))
+	}
+	return r
+}
+
+// IsRunAt calls cronSpecMask.IsRunAt.
+func (s VerifCronSpec) IsRunAt(t time.Time) bool {
+	return s.mask.IsRunAt(t)
+}
+
+// VerifCronConstants returns the mask-type constants and the field bounds as the running code has them.
+func VerifCronConstants() map[string]uint64 {
+	r := map[string]uint64{
+		"cronMaskTypeLastDM":  cronMaskTypeLastDM,
+		"cronMaskTypeLastDW":  cronMaskTypeLastDW,
+		"cronMaskTypeNDW":     cronMaskTypeNDW,
+		"cronMaskTypeMin":     cronMaskTypeMin,
+		"cronMaskTypeHour":    cronMaskTypeHour,
+		"cronMaskTypeDay":     cronMaskTypeDay,
+		"cronMaskTypeMonth":   cronMaskTypeMonth,
+		"cronMaskTypeWeekDay": cronMaskTypeWeekDay,
+		"cronMaskType":        cronMaskType,
+	}
+	for n, f := range map[string]cronField{"Min": cronFieldMin, "Hour": cronFieldHour, "Day": cronFieldDay,
+		"Month": cronFieldMonth, "WeekDay": cronFieldWeekDay} {
+		r["cronField"+n+".min"] = uint64(f.min)
+		r["cronField"+n+".max"] = uint64(f.max)
+		r["cronField"+n+".mask"] = uint64(f.mask)
+	}
+	return r
+}
+
+// verifCronNode is the least gen.Node the tick body needs.
+type verifCronNode struct {
+	gen.Node
+	log verifCronLog
+}
+
+func (n *verifCronNode) IsAlive() bool                  { return true }
+func (n *verifCronNode) Log() gen.Log                   { return &n.log }
+func (n *verifCronNode) Name() gen.Atom                 { return "verif@localhost" }
+func (n *verifCronNode) Send(to any, message any) error { return gen.ErrProcessUnknown }
+func (n *verifCronNode) SendWithPriority(to any, message any, priority gen.MessagePriority) error {
+	return gen.ErrProcessUnknown
+}
+
+type verifCronLog struct{ gen.Log }
+
+func (l *verifCronLog) Trace(format string, args ...any)   {}
+func (l *verifCronLog) Debug(format string, args ...any)   {}
+func (l *verifCronLog) Info(format string, args ...any)    {}
+func (l *verifCronLog) Warning(format string, args ...any) {}
+func (l *verifCronLog) Error(format string, args ...any)   {}
+func (l *verifCronLog) Panic(format string, args ...any)   {}
+
+// VerifCron is a cron object made by createCron whose timer has been stopped.
+type VerifCron struct {
+	c *cron
+}
+
+// VerifNewCron runs createCron and stops the timer before it can fire.
+func VerifNewCron() *VerifCron {
+	c := createCron(&verifCronNode{})
+	c.timer.Stop()
+	return &VerifCron{c: c}
+}
+
+// Cron gives the public interface (AddJob, RemoveJob, EnableJob, DisableJob, Info, JobInfo, Schedule, JobSchedule).
+func (v *VerifCron) Cron() gen.Cron { return v.c }
+
+// Next reads c.next.
+func (v *VerifCron) Next() time.Time {
+	v.c.RLock()
+	defer v.c.RUnlock()
+	return v.c.next
+}
+
+// ScheduleNext calls the real c.schedule(next): sets c.next and spools every enabled job that runs at next.
+func (v *VerifCron) ScheduleNext(next time.Time) { v.c.schedule(next) }
+
+// SpoolAll lists the job names in the spool, disabled ones included, in queue order.
+func (v *VerifCron) SpoolAll() []gen.Atom {
+	var r []gen.Atom
+	for item := v.c.spool.Item(); item != nil; item = item.Next() {
+		r = append(r, item.Value().(*cronJob).job.Name)
+	}
+	return r
+}
+
+// Drain empties the spool without running anything; returns the number of entries dropped.
+func (v *VerifCron) Drain() int {
+	n := 0
+	for {
+		if _, ok := v.c.spool.Pop(); ok == false {
+			return n
+		}
+		n++
+	}
+}
+
+// TickNow makes the real timer function (the closure installed by createCron) run now, on
+// the timer's goroutine. The closure re-arms the timer for the next wall-clock minute;
+// lib.VerifPoint(c, "cron:tick-done") marks its end.
+func (v *VerifCron) TickNow() { v.c.timer.Reset(0) }
+
+// Stop stops the timer.
+func (v *VerifCron) Stop() { v.c.terminate() }
+
+// Obj is the object passed to lib.VerifPoint by the tick body.
+func (v *VerifCron) Obj() any { return v.c }
